@@ -408,6 +408,14 @@ func aliasScenarios(c *CheckRun) []*Scenario {
 	for _, pu := range []int{0, 2, 1} {
 		out = append(out, simple("hAlias", "collation []byte: lazy Prefix sequence", 15, 0, 3, 0, cSpec(2, 2), 0, 0, cSpec(5, 3), 0, 3, cSpec(pu, 2), 1))
 	}
+	// one buffer refilled in place with keys of the SAME length ("a","b","B" / "ab","é","á"): anything the tree keeps
+	// that still refers to the caller's buffer now reads the new content under the old length
+	for _, us := range [][3]int{{0, 1, 7}, {2, 3, 6}} {
+		l := 2
+		out = append(out, simple("hAlias", "collation []byte: one buffer refilled with same-length keys", 15, 1, 3, 0, cSpec(us[0], l), 0, 0, cSpec(us[1], l), 0, 0, cSpec(us[2], l), 0))
+		out = append(out, simple("hAlias", "collation []byte: one buffer refilled with same-length keys", 15, 1, 3, 0, cSpec(us[0], l), 0, 1, cSpec(us[1], l), 0, 0, cSpec(us[1], l), 0))
+		out = append(out, simple("hAlias", "collation []byte: one buffer refilled with same-length keys", 15, 1, 3, 1, cSpec(us[0], l), 0, 0, cSpec(us[1], l), 0, 2, cSpec(us[0], l), 0))
+	}
 	out = append(out, simple("hAlias", "collation []byte: one buffer reused", 15, 1, 3, 0, cSpec(0, 2), 1, 0, cSpec(2, 2), 0, 1, cSpec(0, 2), 0))
 	return out
 }
